@@ -32,7 +32,12 @@ func TestCheck(t *testing.T) {
 	}
 	run := mc.Start(prop)
 	switch prop {
-	case "C01", "C02", "C04", "C09", "C16", "C10":
+	case "C10":
+		if run.Replay == "" {
+			concDuplicates(run)
+		}
+		exitCode = runBFS(run)
+	case "C01", "C02", "C04", "C09", "C16":
 		exitCode = runBFS(run)
 	case "C03":
 		exitCode = runConc(run)
